@@ -424,7 +424,8 @@ def r5_accessor_purity(ck, P):
                 if not any(br.i in brs for br, succ in cs):
                     continue
                 fields = set()
-                for br, succ in cs:
+                # edge dominance: the direct path must be entered only through the NULL side of BOTH callback tests
+                for br, succ in f.guard_edges(d.bb.id):
                     if br.op == 'br' and br.a:
                         cc = f.v(br.a[0]); a2 = f.atoms(br.a[0])
                         if cc is not None and cc.op == 'icmp' and (cc.pred == 'ne') != (br.d['succ'][0] == succ):
